@@ -38,7 +38,8 @@ def run(chk, facts, tier):
                 ok = is_name(a[0], b) and is_name(a[1] if c.cn == 'copy_n' else a[2], 'copy_size')
                 why = 'copy length is not the clamp variable'
             dst = a[-1] if c.cn != 'memcpy' else a[0]
-            ok = ok and 'receive_buffer_[receive_buffer_used_]' in dst.text()
+            ea = elem_addr(dst)
+            ok = ok and ea is not None and is_name(ea[0], 'receive_buffer_') and is_name(ea[1], 'receive_buffer_used_')
         upd = {target_name(tgt): (op, val) for tgt, op, val, s in stores(fn.body)}
         ok = ok and upd.get('receive_buffer_used_', (None, None))[0] == '+=' and is_name(upd['receive_buffer_used_'][1], 'copy_size') and upd.get('receive_size_', (None, None))[0] == '-=' and is_name(upd['receive_size_'][1], 'copy_size')
         chk.instance('reassembly-copy-clamped', fn, 'copy(begin, begin + copy_size, &receive_buffer_[used])', ok, '' if ok else (why or 'fill level / remaining size not advanced by the clamp'), key='copy')
